@@ -75,6 +75,24 @@ def replay_fronts(vals, oid):
                 f = U.falls(x, step=-step)
                 if f.tolist() != [i for i in range(1, n) if x[i] - x[i - 1] <= -step]:
                     bad.append(("falls", x.tolist(), step))
+    # 0/1 event trains in the containers a line may be held in (a thresholded analog trace is boolean, a packed word column unsigned)
+    for n in (2, 9, 40):
+        for _ in range(10):
+            line = rng.integers(0, 2, size=n)
+            want = [i for i in range(1, n) if line[i] != line[i - 1]]
+            pol = [int(line[i]) - int(line[i - 1]) for i in want]
+            for dt in (np.int8, np.int64, float, bool, np.uint8, np.uint16):
+                x = line.astype(dt)
+                try:
+                    ind, sign = U.fronts(x)
+                    if ind.tolist() != want or [int(v) for v in np.asarray(sign).astype(np.int64)] != pol:
+                        bad.append(("fronts of a 0/1 line held as " + np.dtype(dt).name, line.tolist(), ind.tolist(), np.asarray(sign).tolist()))
+                    if U.rises(x).tolist() != [i for i, p_ in zip(want, pol) if p_ > 0]:
+                        bad.append(("rises of a 0/1 line held as " + np.dtype(dt).name, line.tolist(), U.rises(x).tolist()))
+                    if U.falls(x).tolist() != [i for i, p_ in zip(want, pol) if p_ < 0]:
+                        bad.append(("falls of a 0/1 line held as " + np.dtype(dt).name, line.tolist(), U.falls(x).tolist()))
+                except TypeError as e:
+                    bad.append(("a 0/1 line held as " + np.dtype(dt).name + " is refused", line.tolist(), repr(e)[:80]))
     return {"failed": bool(bad), "examples": bad[:3]}
 
 
